@@ -23,7 +23,7 @@ From Coq Require Import List Arith Bool Lia Permutation.
 From LMBase Require Import Res ListX.
 From Coq Require Import ZArith.
 From LMBase Require Import IEEE.
-From LMScan Require Import ScanModel ScanLemmas ScanProofs ScanCheck CheckProofs ScanConcrete F32Order ConcreteProofs.
+From LMScan Require Import ScanModel ScanLemmas ScanProofs ScanCheck CheckProofs ScanConcrete F32Order ConcreteProofs DiscLink.
 Import ListNotations.
 
 (* (1) Soundness, unconditional (any block size incl. 0, any wrap, any matrix; whatever
@@ -170,6 +170,22 @@ Proof.
   - apply idx_decomp. destruct R; simpl in *; lia.
 Qed.
 
+(* ... and these are the only row ranges the scanner scores: two score_rows functions that
+   agree on the ranges [kB, min(kB+B, R)), k = 0, 1, .., give the same iteration (same hits
+   in the same order, same panics) *)
+Theorem C02_scan_reads_blocks_only :
+  forall (T : Type) (geb : T -> T -> bool) (is_nan : T -> bool) (scale : T -> nat)
+         (score_position : nat -> res T) (sr sr' : nat -> nat -> res dmatrix)
+         (R Lm B : nat) (thr : T),
+    (forall k, k * B < R -> sr (k * B) (Nat.min (k * B + B) R) = sr' (k * B) (Nat.min (k * B + B) R)) ->
+    forall fuel,
+      collect geb is_nan scale score_position sr R Lm B thr fuel init =
+      collect geb is_nan scale score_position sr' R Lm B thr fuel init.
+Proof.
+  intros T geb is_nan scale score_position sr sr' R Lm B thr H fuel.
+  exact (collect_init_agree geb is_nan scale score_position sr sr' R Lm B thr H fuel).
+Qed.
+
 (* (5) The executable checker the driver evaluates on the IMPLEMENTATION's observations
    (scores = score_position at every position 0..L-M as printed by the harness, hits =
    what the scanner yielded until None, all as binary32 bit patterns) decides this
@@ -186,6 +202,22 @@ Theorem C02_check_sound :
 Proof.
   intros scores thr hits H. split; [exact (check_c02_sound scores thr hits H)|].
   exact (check_c02_sound_pointwise scores thr hits H).
+Qed.
+
+(* and it raises no false alarm: every hit list with the property passes *)
+Theorem C02_check_complete :
+  forall (scores : list Z) (thr : Z) (hits : list (Z * Z)),
+    NoDup (map fst hits) ->
+    (forall i s, In (i, s) hits <->
+                 (0 <= i)%Z /\ nth_error scores (Z.to_nat i) = Some s /\
+                 F32.ge (F32.of_bits s) (F32.of_bits thr) = true) ->
+    check_c02 scores thr hits = true.
+Proof.
+  intros scores thr hits Hnd Hin. apply check_c02_complete.
+  apply NoDup_Permutation.
+  - eapply NoDup_map_inv; exact Hnd.
+  - eapply NoDup_map_inv; apply NoDup_qual.
+  - intros [i s]. rewrite Hin. symmetry. apply in_qual.
 Qed.
 
 (* (6) The concrete binary32 scanner, i.e. the extracted text that is replayed against
@@ -222,6 +254,68 @@ Proof.
               Hcons (ce_fuel v)) as (H & Hc & Hin & Hnd & _).
   { unfold ce_fuel. lia. }
   exists H. split; [exact Hc|]. split; [exact Hin|exact Hnd].
+Qed.
+
+(* the same with the scores written out: position i (0 <= i <= L-M) is yielded iff the
+   left-to-right binary32 sum of the matrix cells pssm[j][s[i+j]], j < M, is >= thr, and it
+   carries exactly that sum; the conservativeness hypothesis compares scale(thr) with the
+   saturating sum of the discretised cells of the same window *)
+Theorem C02_concrete_scan_explicit :
+  forall (K C : nat) (pssm : list (list F32.t)) (sq : list nat) (wrap : nat) (v : cenv)
+         (am : arm) (thr : F32.t) (B : nat),
+    wf_input K C pssm sq wrap ->
+    c_env K C pssm sq wrap = Ok v ->
+    1 <= B ->
+    (forall i, i + length pssm <= length sq -> F32.ge (score_def K sq pssm i) thr = true ->
+               c_scale (ce_dm v) thr <= dscore_def K sq (d_data (ce_dm v)) i) ->
+    exists H : list (nat * F32.t),
+      ce_collect v am thr B = Ok H /\
+      (forall i x, In (i, x) H <->
+                   i + length pssm <= length sq /\
+                   F32.ge (score_def K sq pssm i) thr = true /\ x = score_def K sq pssm i) /\
+      NoDup (map fst H).
+Proof.
+  intros K C pssm sq wrap v am thr B Hwf Henv HB Hcons.
+  pose proof (env_Lm K C pssm sq wrap v Henv) as HLm.
+  assert (HM : 1 <= length pssm) by (destruct Hwf as (_ & _ & HM & _); exact HM).
+  assert (Hiff : forall i, i < ce_Lm v <-> i + length pssm <= length sq) by (intros i; rewrite HLm; lia).
+  destruct (C02_concrete_scan K C pssm sq wrap v am thr B Hwf Henv HB) as (_ & H & Hc & Hin & Hnd).
+  { intros i Hi Hg.
+    rewrite (env_cscore_spec K C pssm sq wrap v Hwf Henv i Hi) in Hg.
+    rewrite (env_cdscore_spec_i K C pssm sq wrap v Hwf Henv i Hi).
+    apply Hcons; auto. now apply Hiff. }
+  exists H. split; [exact Hc|]. split; [|exact Hnd].
+  intros i x. rewrite Hin. split.
+  - intros (Hi & Hg & Hx). rewrite (env_cscore_spec K C pssm sq wrap v Hwf Henv i Hi) in Hg, Hx.
+    split; [now apply Hiff|auto].
+  - intros (Hi & Hg & Hx). apply Hiff in Hi.
+    rewrite (env_cscore_spec K C pssm sq wrap v Hwf Henv i Hi). auto.
+Qed.
+
+(* and with the conservativeness hypothesis reduced to property C08's own two conditions,
+   through the theorems of the discretisation group (coq/disc: scale is monotone in
+   binary32 when the sign bit of the factor is clear): (a) the factor's sign bit is clear
+   (it is set only for the signed-zero matrices of known finding F14b), (b) C08's main
+   clause at every position: the byte score is at least the byte image of the real score *)
+Theorem C02_concrete_scan_c08 :
+  forall (K C : nat) (pssm : list (list F32.t)) (sq : list nat) (wrap : nat) (v : cenv)
+         (am : arm) (thr : F32.t) (B : nat),
+    wf_input K C pssm sq wrap ->
+    c_env K C pssm sq wrap = Ok v ->
+    1 <= B ->
+    factor_sign_clear (ce_dm v) = true ->
+    (forall i, i + length pssm <= length sq ->
+               c_scale (ce_dm v) (score_def K sq pssm i) <= dscore_def K sq (d_data (ce_dm v)) i) ->
+    exists H : list (nat * F32.t),
+      ce_collect v am thr B = Ok H /\
+      (forall i x, In (i, x) H <->
+                   i + length pssm <= length sq /\
+                   F32.ge (score_def K sq pssm i) thr = true /\ x = score_def K sq pssm i) /\
+      NoDup (map fst H).
+Proof.
+  intros K C pssm sq wrap v am thr B Hwf Henv HB Hsign Hmain.
+  apply (C02_concrete_scan_explicit K C pssm sq wrap v am thr B Hwf Henv HB).
+  intros i Hi Hg. exact (c_scale_transfer (ce_dm v) _ thr _ Hsign (Hmain i Hi) Hg).
 Qed.
 
 (* soundness needs no hypothesis at all on the concrete scanner: whatever the matrix,
@@ -321,6 +415,17 @@ Example C02_nonvacuous_short :
           0 0 2 0 1 init = Ok [].
 Proof. vm_compute. split; reflexivity. Qed.
 
+(* the side conditions are needed.  Block size 0: the row counter never advances and the
+   loop never ends (the model runs out of any fuel; the real scanner does not return).
+   A pre-filter that is not conservative (here: byte scores all 0 while scale 7 = 3):
+   every block is skipped and the five qualifying positions are lost - the model follows
+   the code, it does not assume the property. *)
+Example C02_hypotheses_needed :
+  collect Toy.geb Toy.is_nan Toy.scale Toy.score_position (Toy.score_rows 4) 4 Toy.Lm 0 7 1000 init = OutOfFuel /\
+  collect Toy.geb Toy.is_nan Toy.scale Toy.score_position
+          (fun a e => Ok (block_spec 4 Toy.Lm 3 (fun _ => 0) a e)) 4 Toy.Lm 2 7 11 init = Ok [].
+Proof. vm_compute. split; reflexivity. Qed.
+
 (* The concrete binary32 scanner on a real instance (ConcreteProofs.Ex: a 3-column motif
    with a -inf wildcard column, 40 symbols = 2 striped rows of 32 columns, 38 valid
    positions, threshold 1.0 attained exactly at position 24): every hypothesis of
@@ -348,3 +453,11 @@ Example C02_concrete_runs :
   map fst (unres [] (ce_collect Ex.env Generic Ex.thr 256))
     = [33; 31; 29; 25; 23; 21; 17; 15; 13; 9; 5; 26; 24; 20; 18; 8; 0].
 Proof. vm_compute. repeat split; reflexivity. Qed.
+
+(* ... and the two C08 conditions of C02_concrete_scan_c08 hold on that instance *)
+Example C02_concrete_c08_nonvacuous :
+  factor_sign_clear (ce_dm Ex.env) = true /\
+  (forall i, i + length Ex.pssm <= length Ex.sq ->
+             c_scale (ce_dm Ex.env) (score_def 5 Ex.sq Ex.pssm i)
+             <= dscore_def 5 Ex.sq (d_data (ce_dm Ex.env)) i).
+Proof. split; [exact Ex_sign_clear|exact Ex_main]. Qed.
